@@ -4,6 +4,7 @@ import (
 	"errors"
 	"fmt"
 	"strconv"
+	"sync"
 
 	"log/slog"
 
@@ -40,6 +41,11 @@ type api struct {
 	done       bool
 	errors     chan error
 	metrics    *metrics.Metrics
+
+	// mu makes "check done, then enqueue" atomic with respect to Shutdown:
+	// once Shutdown has returned no request can slip into the queue, so a
+	// request is either refused or already visible to Done
+	mu sync.RWMutex
 }
 
 func New(size int, metrics *metrics.Metrics) *api {
@@ -96,10 +102,16 @@ func (a *api) Stop() error {
 }
 
 func (a *api) Shutdown() {
+	a.mu.Lock()
+	defer a.mu.Unlock()
+
 	a.done = true
 }
 
 func (a *api) Done() bool {
+	a.mu.RLock()
+	defer a.mu.RUnlock()
+
 	return a.done && len(a.sq) == 0
 }
 
@@ -165,7 +177,9 @@ func (a *api) EnqueueSQE(sqe *bus.SQE[t_api.Request, t_api.Response]) {
 
 	// we must wait to close the channel because even in a select
 	// sending to a closed channel will panic
+	a.mu.RLock()
 	if a.done {
+		a.mu.RUnlock()
 		sqe.Callback(nil, t_api.NewError(t_api.StatusSystemShuttingDown, nil))
 		return
 	}
@@ -173,7 +187,9 @@ func (a *api) EnqueueSQE(sqe *bus.SQE[t_api.Request, t_api.Response]) {
 
 	select {
 	case a.sq <- sqe:
+		a.mu.RUnlock()
 	default:
+		a.mu.RUnlock()
 		sqe.Callback(nil, t_api.NewError(t_api.StatusAPISubmissionQueueFull, nil))
 	}
 }
